@@ -1,6 +1,8 @@
 SPECIFICATION Spec
 CONSTANTS
   Part = "switch"
+  BoolSize = "q"
+  AndMerge = "fixed"
   MaxArms = 4
 INVARIANT SwitchOK
 INVARIANT Publish
